@@ -122,6 +122,19 @@ func (sdbh *SemaDBHandlers) HandleCreateCollection(w http.ResponseWriter, r *htt
 	}
 }
 
+// The v1 API only knows collections with a single vamana index on the "vector"
+// property, which is what it creates itself. Collections created through a newer
+// API version may have any schema, for those this returns nil.
+func v1VectorParameters(collection models.Collection) *models.IndexVectorVamanaParameters {
+	vectorIndex, ok := collection.IndexSchema["vector"]
+	if !ok || vectorIndex.Type != models.IndexTypeVectorVamana {
+		return nil
+	}
+	return vectorIndex.VectorVamana
+}
+
+const errNotV1Collection = "collection is not compatible with the v1 API"
+
 type ListCollectionItem struct {
 	Id             string `json:"id"`
 	VectorSize     uint   `json:"vectorSize"`
@@ -141,9 +154,14 @@ func (sdbh *SemaDBHandlers) HandleListCollections(w http.ResponseWriter, r *http
 		log.Error().Err(err).Msg("ListCollections failed")
 		return
 	}
-	colItems := make([]ListCollectionItem, len(collections))
-	for i, col := range collections {
-		colItems[i] = ListCollectionItem{Id: col.Id, VectorSize: col.IndexSchema["vector"].VectorVamana.VectorSize, DistanceMetric: col.IndexSchema["vector"].VectorVamana.DistanceMetric}
+	colItems := make([]ListCollectionItem, 0, len(collections))
+	for _, col := range collections {
+		vamanaParams := v1VectorParameters(col)
+		if vamanaParams == nil {
+			// Not a v1 collection, it is listed by the API version that created it
+			continue
+		}
+		colItems = append(colItems, ListCollectionItem{Id: col.Id, VectorSize: vamanaParams.VectorSize, DistanceMetric: vamanaParams.DistanceMetric})
 	}
 	resp := ListCollectionsResponse{Collections: colItems}
 	utils.Encode(w, http.StatusOK, resp)
@@ -204,6 +222,11 @@ type GetCollectionResponse struct {
 func (sdbh *SemaDBHandlers) HandleGetCollection(w http.ResponseWriter, r *http.Request) {
 	// ---------------------------
 	collection := r.Context().Value(collectionContextKey).(models.Collection)
+	vamanaParams := v1VectorParameters(collection)
+	if vamanaParams == nil {
+		utils.Encode(w, http.StatusBadRequest, map[string]string{"error": errNotV1Collection})
+		return
+	}
 	// ---------------------------
 	shards, err := sdbh.clusterNode.GetShardsInfo(collection)
 	if errors.Is(err, cluster.ErrShardUnavailable) {
@@ -221,8 +244,8 @@ func (sdbh *SemaDBHandlers) HandleGetCollection(w http.ResponseWriter, r *http.R
 	}
 	resp := GetCollectionResponse{
 		Id:             collection.Id,
-		VectorSize:     collection.IndexSchema["vector"].VectorVamana.VectorSize,
-		DistanceMetric: collection.IndexSchema["vector"].VectorVamana.DistanceMetric,
+		VectorSize:     vamanaParams.VectorSize,
+		DistanceMetric: vamanaParams.DistanceMetric,
 		Shards:         shardItems,
 	}
 	utils.Encode(w, http.StatusOK, resp)
@@ -299,12 +322,17 @@ func (sdbh *SemaDBHandlers) HandleInsertPoints(w http.ResponseWriter, r *http.Re
 	// ---------------------------
 	// Get corresponding collection
 	collection := r.Context().Value(collectionContextKey).(models.Collection)
+	vamanaParams := v1VectorParameters(collection)
+	if vamanaParams == nil {
+		utils.Encode(w, http.StatusBadRequest, map[string]string{"error": errNotV1Collection})
+		return
+	}
 	// ---------------------------
 	// Convert request points into internal points, doing checks along the way
 	points := make([]models.Point, len(req.Points))
 	for i, point := range req.Points {
-		if len(point.Vector) != int(collection.IndexSchema["vector"].VectorVamana.VectorSize) {
-			errMsg := fmt.Sprintf("invalid vector dimension, expected %d got %d for point at index %d", collection.IndexSchema["vector"].VectorVamana.VectorSize, len(point.Vector), i)
+		if len(point.Vector) != int(vamanaParams.VectorSize) {
+			errMsg := fmt.Sprintf("invalid vector dimension, expected %d got %d for point at index %d", vamanaParams.VectorSize, len(point.Vector), i)
 			utils.Encode(w, http.StatusBadRequest, map[string]string{"error": errMsg})
 			return
 		}
@@ -401,12 +429,17 @@ func (sdbh *SemaDBHandlers) HandleUpdatePoints(w http.ResponseWriter, r *http.Re
 	// ---------------------------
 	// Get corresponding collection
 	collection := r.Context().Value(collectionContextKey).(models.Collection)
+	vamanaParams := v1VectorParameters(collection)
+	if vamanaParams == nil {
+		utils.Encode(w, http.StatusBadRequest, map[string]string{"error": errNotV1Collection})
+		return
+	}
 	// ---------------------------
 	// Convert request points into internal points, doing checks along the way
 	points := make([]models.Point, len(req.Points))
 	for i, point := range req.Points {
-		if len(point.Vector) != int(collection.IndexSchema["vector"].VectorVamana.VectorSize) {
-			errMsg := fmt.Sprintf("invalid vector dimension, expected %d got %d for point at index %d", collection.IndexSchema["vector"].VectorVamana.VectorSize, len(point.Vector), i)
+		if len(point.Vector) != int(vamanaParams.VectorSize) {
+			errMsg := fmt.Sprintf("invalid vector dimension, expected %d got %d for point at index %d", vamanaParams.VectorSize, len(point.Vector), i)
 			utils.Encode(w, http.StatusBadRequest, map[string]string{"error": errMsg})
 			return
 		}
@@ -534,10 +567,15 @@ func (sdbh *SemaDBHandlers) HandleSearchPoints(w http.ResponseWriter, r *http.Re
 	// ---------------------------
 	// Get corresponding collection
 	collection := r.Context().Value(collectionContextKey).(models.Collection)
+	vamanaParams := v1VectorParameters(collection)
+	if vamanaParams == nil {
+		utils.Encode(w, http.StatusBadRequest, map[string]string{"error": errNotV1Collection})
+		return
+	}
 	// ---------------------------
 	// Check vector dimension
-	if len(req.Vector) != int(collection.IndexSchema["vector"].VectorVamana.VectorSize) {
-		errMsg := fmt.Sprintf("invalid vector dimension, expected %d got %d", collection.IndexSchema["vector"].VectorVamana.VectorSize, len(req.Vector))
+	if len(req.Vector) != int(vamanaParams.VectorSize) {
+		errMsg := fmt.Sprintf("invalid vector dimension, expected %d got %d", vamanaParams.VectorSize, len(req.Vector))
 		utils.Encode(w, http.StatusBadRequest, map[string]string{"error": errMsg})
 		return
 	}
